@@ -33,6 +33,12 @@ type Mutant struct {
 	New    string `json:"new"`
 	Expect string `json:"expect"` // substring of an obligation key that must fail
 	Note   string `json:"note,omitempty"`
+	// More holds further edits of the same mutant (two cooperating sites).
+	More []struct {
+		File string `json:"file"`
+		Old  string `json:"old"`
+		New  string `json:"new"`
+	} `json:"more,omitempty"`
 }
 
 type runResult struct {
@@ -144,7 +150,23 @@ func runMutant(p *Prop, repo string, m Mutant) mutantOutcome {
 		return out
 	}
 	mut := strings.Replace(string(src), m.Old, m.New, 1)
-	res := analyse(p, repo, "quick", map[string][]byte{abs: []byte(mut)})
+	overlay := map[string][]byte{abs: []byte(mut)}
+	for _, e := range m.More {
+		a2 := filepath.Join(repo, e.File)
+		var s2 []byte
+		if b, ok := overlay[a2]; ok {
+			s2 = b
+		} else if s2, err = os.ReadFile(a2); err != nil {
+			out.Status, out.Detail = "stale", err.Error()
+			return out
+		}
+		if strings.Count(string(s2), e.Old) != 1 {
+			out.Status, out.Detail = "stale", fmt.Sprintf("old text of extra edit in %s occurs %d times", e.File, strings.Count(string(s2), e.Old))
+			return out
+		}
+		overlay[a2] = []byte(strings.Replace(string(s2), e.Old, e.New, 1))
+	}
+	res := analyse(p, repo, "quick", overlay)
 	if strings.HasPrefix(res.Err, "load:") {
 		out.Status, out.Detail = "no-compile", res.Err
 		return out
